@@ -206,3 +206,158 @@ Theorem C01_slot_machine_refines_spec_calls :
   end.
 Proof. exact slot_call_export_refines_spec. Qed.
 Print Assumptions C01_slot_machine_refines_spec_calls.
+
+(* ================================================================================================================ *)
+(* SSA stream: the CFG-level passes of the optimizing compiler (ssa/pass.go, pass_cfg.go, pass_blk_layouts.go) by
+   TRANSLATION VALIDATION. Engine/SsaCfg.v defines graphs (adjacency lists, entry 0), paths, dominance and immediate
+   dominators by the path-based definitions, and executable checkers. The theorems below say: if a checker ACCEPTS
+   what a pass computed for a graph, the path-based statement holds -- for every graph and every certificate, no
+   fuel hypothesis (the checkers re-check their own traversal). checks/c01_ssa.py evaluates the checkers on every run
+   on what the REAL passes produced for every function of the generated programs (dumped from inside package ssa). *)
+From Verif Require Import Engine.SsaCfg Proofs.SsaCfgP.
+Open Scope nat_scope.
+
+(* passDeadBlockEliminationOpt: the blocks flagged invalid are exactly the blocks no path from the entry reaches *)
+Theorem C01_dead_blocks_exactly_unreachable :
+  forall (g : graph) (invalid : list bool), dead_block_check g invalid = true ->
+  forall b, b < length g -> (nth b invalid false = true <-> ~ reachable g b).
+Proof. exact dead_block_sound. Qed.
+Print Assumptions C01_dead_blocks_exactly_unreachable.
+
+(* passCalculateImmediateDominators, the order: reversePostOrderedBasicBlocks lists exactly the reachable blocks,
+   once each, the entry first; each block's reversePostOrder field is its position; and every edge goes forward in the
+   order unless it is a back edge (its target dominates its source) *)
+Theorem C01_reverse_postorder_sound :
+  forall (g : graph) (order : list nat) (rpo : list (option nat)), rpo_check g order rpo = true ->
+  NoDup order /\ hd_error order = Some entry /\
+  (forall b, In b order <-> reachable g b) /\
+  (forall b i, nth_error order i = Some b -> nth b rpo None = Some i) /\
+  (forall u v i j, nth_error order i = Some u -> nth_error order j = Some v -> edge g u v ->
+                   i < j \/ dominates g v u).
+Proof. exact rpo_sound. Qed.
+Print Assumptions C01_reverse_postorder_sound.
+
+(* passCalculateImmediateDominators, the result (calculateDominators / intersect): for every reachable block other
+   than the entry the recorded block strictly dominates it (every path from the entry passes through it) and is THE
+   immediate dominator (every strict dominator of b dominates it); the entry records itself; unreachable blocks
+   record nothing *)
+Theorem C01_dominator_tree_sound :
+  forall (g : graph) (idom : list (option nat)), dom_check g idom = true ->
+  forall b, b < length g ->
+    (reachable g b -> exists p, nth b idom None = Some p /\ (b = entry -> p = entry) /\ (b <> entry -> is_idom g p b)) /\
+    (~ reachable g b -> nth b idom None = None).
+Proof. exact dom_sound. Qed.
+Print Assumptions C01_dominator_tree_sound.
+
+(* subPassLoopDetection: a block is flagged loop header iff it has a reachable predecessor that it dominates *)
+Theorem C01_loop_headers_sound :
+  forall (g : graph) (hdr : list bool), loop_check g hdr = true ->
+  forall b, b < length g ->
+    (nth b hdr false = true <-> exists u, reachable g u /\ edge g u b /\ dominates g b u).
+Proof. exact loop_sound. Qed.
+Print Assumptions C01_loop_headers_sound.
+
+(* passBuildLoopNestingForest: a block is listed (once) under h only if h is its NEAREST strictly dominating loop
+   header; a block that a loop header strictly dominates is listed under one; the roots are the loop headers that no
+   loop header strictly dominates; unreachable blocks appear nowhere *)
+Theorem C01_loop_nesting_forest_sound :
+  forall (g : graph) (hdr : list bool) (children : list (list nat)) (roots : list nat),
+  forest_check g hdr children roots = true ->
+  forall b, b < length g ->
+    (reachable g b ->
+       (forall h, In b (nth h children []) -> nearest_hdr g hdr h b /\ count b (nth h children []) = 1) /\
+       ((exists h, sdom g h b /\ nth h hdr false = true) -> exists h, In b (nth h children [])) /\
+       (In b roots <-> nth b hdr false = true /\ ~ exists h, sdom g h b /\ nth h hdr false = true)) /\
+    (~ reachable g b -> ~ In b roots /\ forall h, ~ In b (nth h children [])).
+Proof. exact forest_sound. Qed.
+Print Assumptions C01_loop_nesting_forest_sound.
+
+(* passBuildDominatorTree / findLCA (Builder.LowestCommonAncestor): the answer dominates both blocks and every
+   common dominator of the two dominates it *)
+Theorem C01_lowest_common_ancestor_sound :
+  forall (g : graph) (qs : list (nat * nat * nat)), lca_check g qs = true ->
+  forall u v l, In (u, v, l) qs ->
+    reachable g u /\ reachable g v /\ dominates g l u /\ dominates g l v /\
+    forall d, dominates g d u -> dominates g d v -> dominates g d l.
+Proof. exact lca_sound. Qed.
+Print Assumptions C01_lowest_common_ancestor_sound.
+
+(* passLayoutBlocks with maybeInvertBranches, splitCriticalEdge and markFallthroughJumps. before/valid: the function
+   after the pre-layout passes; after/order: after RunPasses; blocks numbered from length before are the new
+   trampolines; length after stands for the return block. *)
+Theorem C01_layout_preserves_cfg :
+  forall (before : list blk) (valid : list bool) (after : list blk) (order : list nat),
+  layout_check before valid after order = true ->
+  let n0 := length before in
+  let n1 := length after in
+  NoDup order /\ hd_error order = Some entry /\
+  (forall b, b < n0 -> (In b order <-> nth b valid false = true)) /\
+  (forall b, In b order -> b < n1) /\
+  (forall b, In b order -> n0 <= b ->
+     exists t ft, term_of after b = TJump t ft /\ b_nins (nth b after dblk) = 1 /\ b_params (nth b after dblk) = 0) /\
+  (forall b, In b order -> b < n0 ->
+     b_body (nth b after dblk) = b_body (nth b before dblk) /\
+     b_params (nth b after dblk) = b_params (nth b before dblk) /\
+     b_nins (nth b after dblk) = b_nins (nth b before dblk) /\
+     cond_of (term_of after b) = cond_of (term_of before b) /\
+     forall o, step_after after n0 b o = step before b o /\ step before b o <> NStuck) /\
+  (forall b o t, In b order -> b < n0 -> step before b o = NGo t -> fst t = n1 \/ (In (fst t) order /\ fst t < n0)) /\
+  (forall b t, In b order -> In t (targets (term_of after b)) -> t = n1 \/ In t order) /\
+  (forall i b t, nth_error order i = Some b -> last_jump (term_of after b) = Some (t, true) -> nth_error order (S i) = Some t) /\
+  (forall i b t, nth_error order i = Some b -> nth_error order (S i) = Some t -> last_jump (term_of after b) <> Some (t, false)).
+Proof. exact layout_sound. Qed.
+Print Assumptions C01_layout_preserves_cfg.
+
+(* hence: for every live block and every sequence of condition / br_table index values, the laid-out function visits
+   the same sequence of (non-trampoline) blocks as the input -- the pass is a graph isomorphism up to trampolines *)
+Theorem C01_layout_preserves_traces :
+  forall (before : list blk) (valid : list bool) (after : list blk) (order : list nat),
+  layout_check before valid after order = true ->
+  forall os b, In b order -> b < length before ->
+    trace (step_after after (length before)) b os = trace (step before) b os.
+Proof. exact layout_traces. Qed.
+Print Assumptions C01_layout_preserves_traces.
+
+(* the pre-layout passes (successor sorting, dead-block elimination, phi elimination, dead-code elimination) leave
+   the graph alone: same blocks, same branch targets *)
+Theorem C01_prelayout_passes_keep_cfg :
+  forall (bs0 bs1 : list blk), cfg_kept_check bs0 bs1 = true ->
+  length bs0 = length bs1 /\
+  (forall b, targets (term_of bs0 b) = targets (term_of bs1 b)) /\
+  forall ret, cfg_of ret bs0 = cfg_of ret bs1.
+Proof. exact cfg_kept_sound. Qed.
+Print Assumptions C01_prelayout_passes_keep_cfg.
+
+(* the builder's successor and predecessor lists (what passSortSuccessors permutes and the passes walk) describe the
+   same graph as the branch instructions (what the checkers walk): equal as multisets among live blocks *)
+Theorem C01_cfg_bookkeeping_sound :
+  forall (bs : list blk) (valid : list bool) (succl predl : list (list nat)),
+  bookkeeping_check bs valid succl predl = true ->
+  forall b, b < length bs -> nth b valid false = true ->
+    (forall v, count v (nth b succl []) = count v (targets (term_of bs b))) /\
+    (forall u, In u (nth b predl []) -> u < length bs) /\
+    (forall u, u < length bs -> nth u valid false = true ->
+               count u (nth b predl []) = count b (targets (term_of bs u))).
+Proof. exact bookkeeping_sound. Qed.
+Print Assumptions C01_cfg_bookkeeping_sound.
+
+(* the per-function evaluation of the tie (`fcase_check`, one vm_compute per dumped function) is the conjunction of
+   the checkers above on the function's graphs before and after layout *)
+Theorem C01_ssa_case_check_sound :
+  forall c : fcase, fcase_check c = true ->
+  let g1 := cfg_of (fc_ret c) (fc_b1 c) in
+  let g3 := cfg_of (fc_ret c) (fc_b3 c) in
+  cfg_kept_check (fc_b0 c) (fc_b1 c) = true /\
+  bookkeeping_check (fc_b1 c) (fc_valid c) (fc_succ1 c) (fc_pred1 c) = true /\
+  bookkeeping_check (fc_b3 c) (fc_valid3 c) (fc_succ3 c) (fc_pred3 c) = true /\
+  dead_block_check g1 (map negb (fc_valid c)) = true /\
+  rpo_check g1 (fc_order1 c) (fc_rpo1 c) = true /\
+  dom_check g1 (fc_idom1 c) = true /\
+  loop_check g1 (fc_hdr1 c) = true /\
+  layout_check (fc_b1 c) (fc_valid c) (fc_b3 c) (fc_order3 c) = true /\
+  dom_check g3 (fc_idom3 c) = true /\
+  loop_check g3 (fc_hdr3 c) = true /\
+  forest_check g3 (fc_hdr3 c) (fc_kids3 c) (fc_roots3 c) = true /\
+  lca_check g3 (fc_lca3 c) = true.
+Proof. exact fcase_check_sound. Qed.
+Print Assumptions C01_ssa_case_check_sound.
